@@ -97,7 +97,7 @@ impl ToTokens for MatchArms<'_> {
                 ForwardAttrsFilter::Only(idents) => {
                     let names = idents.to_strings();
                     quote! {
-                        #(#names)|* => #push_command,
+                        #(#names)|* if __attr.path().leading_colon.is_none() => #push_command,
                         _ => continue,
                     }
                 }
